@@ -302,7 +302,7 @@ func fixChunks(o *WOp) {
 	}
 	rem := o.Pay.Len
 	for i := range o.Chunks {
-		if h := o.Chunks[i].How; h == "e+" || h == "e-" || h == "l" {
+		if h := o.Chunks[i].How; h == "e+" || h == "e-" || h == "l" || h == "cc" {
 			continue
 		}
 		if o.Chunks[i].N > rem {
